@@ -87,6 +87,21 @@ UNITS = {
             I(RAW, r'^impl < T , A : Allocator > RawTable < T , A >$', 'insert', impl='RawTable<T>', key='RawTable::insert'),
         ],
     ),
+    # C08: the three cases of RawTable::shrink_to against the contracts of its callees
+    'shrink': dict(
+        widths=[16, 8],
+        prelude='preludes/arith.rs',
+        prelude_extra='preludes/shrink.rs',
+        specs='contracts/shrink.vspec',
+        lemmas=['lemmas/arith_lemmas.rs', 'lemmas/shrink_lemmas.rs'],
+        extra='shrink_rules',
+        items=[
+            I(RAW, None, 'capacity_to_buckets'),
+            I(RAW, None, 'bucket_mask_to_capacity'),
+            I(RAW, r'^impl < T , A : Allocator > RawTable < T , A >$', 'buckets', impl='RawTable<T>', key='RawTable::buckets'),
+            I(RAW, r'^impl < T , A : Allocator > RawTable < T , A >$', 'shrink_to', impl='RawTable<T>', key='RawTable::shrink_to'),
+        ],
+    ),
     'arith': dict(
         widths=[16, 8],
         prelude='preludes/arith.rs',
@@ -280,6 +295,20 @@ def grow_rules(toks, i, out, hit):
         out.append(extract.T('DropFn', t.gap))
         hit('R8_option_drop_fn_to_DropFn')
         return i + 10
+    return None
+
+
+def shrink_rules(toks, i, out, hit):
+    """unit `shrink`: R8 types of unit grow + R14 `Self::TABLE_LAYOUT` -> `Self::table_layout()`
+    (an opaque function returning an arbitrary valid element layout: all element types at once)."""
+    r = grow_rules(toks, i, out, hit)
+    if r is not None:
+        return r
+    t = toks[i]
+    if t.text == 'Self' and [x.text for x in toks[i + 1:i + 4]] == [':', ':', 'TABLE_LAYOUT']:
+        out.extend([extract.T('Self', t.gap), extract.T(':', ''), extract.T(':', ''), extract.T('table_layout', ''), extract.T('(', ''), extract.T(')', '')])
+        hit('R14_assoc_const_TABLE_LAYOUT_to_opaque_fn')
+        return i + 4
     return None
 
 
